@@ -1,7 +1,114 @@
-(* C09 placeholder: theorems land with Proofs/ProtoProofs.v *)
+(* C09 -- after load every reference is the attached object itself (at UUID level).
+   In a loaded content each UUID denotes one node; symbol referents, entry points, edge endpoints and expression symbols
+   are UUIDs of nodes of that same content, of the admissible kind, and the decoder obtains each of them by looking the
+   UUID up in the per-IR table of already decoded nodes (`resolve`), never by creating a node.  A reference naming a
+   missing node or a node of the wrong kind is rejected with DeserializationError; a reference that is not 16 bytes
+   with ValueError.
+   Object IDENTITY (`is`) -- that the Python attribute holds the very object reachable through the containment tree --
+   and the AuxData UUID/Offset entries are observed by the differential harness; they are not expressible in this
+   model, where a node is its UUID plus attributes.  What is proved here is the part identity rests on: one node per
+   UUID, and every reference resolved through the one table.
+   Model: Model/Proto.v.  Proofs: Proofs/ProtoReaderBase.v, Proofs/ProtoReader.v, Proofs/ProtoProps.v.
+   Trusted: the protobuf wire codec. *)
 From Coq Require Import ZArith List.
-From V Require Import Result Proto.
+From V Require Import Result Proto ProtoReaderBase ProtoReader ProtoProps.
 Import ListNotations.
-Theorem C09_resolve_missing : forall t bs ok u, uuid_of_bytes bs = Ok u -> tlookup t u = None -> resolve t bs ok = Err EDeser.
-Proof. intros t bs ok u H1 H2. unfold resolve. rewrite H1. cbn. rewrite H2. reflexivity. Qed.
-Print Assumptions C09_resolve_missing.
+Open Scope Z_scope.
+
+(* each UUID denotes one node: the UUIDs of all nodes of a loaded content are pairwise distinct *)
+Theorem C09_loaded_unique : forall p c, msg_ok p = true -> from_proto p = Ok c -> NoDup (all_uuids c).
+Proof. exact loaded_unique. Qed.
+
+(* every reference names a node of the loaded content of an admissible kind: referents are blocks or proxies, entry
+   points code blocks, edge endpoints code blocks or proxies, expression operands symbols *)
+Theorem C09_refs_closed_typed : forall p c, msg_ok p = true -> from_proto p = Ok c -> refs_closed c.
+Proof. exact refs_closed_typed. Qed.
+
+(* together: a reference is the UUID of exactly one node of the loaded content *)
+Theorem C09_reference_one_node : forall p c r, msg_ok p = true -> from_proto p = Ok c -> is_reference c r ->
+  count_occ Z.eq_dec (all_uuids c) r = 1%nat.
+Proof. exact loaded_reference_one_node. Qed.
+
+(* ---------- resolve: the only way a reference is decoded ---------- *)
+Theorem C09_resolve_accepts : forall t bs ok u, resolve t bs ok = Ok u ->
+  uuid_of_bytes bs = Ok u /\ exists k, tlookup t u = Some k /\ ok k = true.
+Proof. exact resolve_inv. Qed.
+
+Theorem C09_dangling_rejected : forall t bs ok u,
+  uuid_of_bytes bs = Ok u -> tlookup t u = None -> resolve t bs ok = Err EDeser.
+Proof. exact resolve_dangling. Qed.
+
+Theorem C09_illtyped_rejected : forall t bs ok u k,
+  uuid_of_bytes bs = Ok u -> tlookup t u = Some k -> ok k = false -> resolve t bs ok = Err EDeser.
+Proof. exact resolve_illtyped. Qed.
+
+Theorem C09_badlen_rejected : forall t bs ok, length bs <> 16%nat -> resolve t bs ok = Err EValue.
+Proof. exact resolve_badlen. Qed.
+
+(* ---------- one lemma per reference kind: the decoder uses resolve with the right admissible kinds ---------- *)
+(* symbol referent: code block, data block or proxy block *)
+Theorem C09_symbol_referent : forall t y y' t' bs, decode_symbol t y = Ok (y', t') -> y_payload y = PPRef bs ->
+  exists u k, cy_payload y' = CPRef u /\ uuid_of_bytes bs = Ok u /\ tlookup t u = Some k /\ is_block_kind k = true.
+Proof. exact decode_symbol_referent. Qed.
+
+(* module entry point: a code block, in the table as it is after this module's proxies and sections were decoded *)
+Theorem C09_entry_point : forall t m m' t', decode_module t m = Ok (m', t') ->
+  (m_entry m = [] /\ cm_entry m' = None)
+  \/ (m_entry m <> [] /\
+      exists um proxies t1 secs0 t2 u,
+        uuid_of_bytes (m_uuid m) = Ok um
+        /\ map_res decode_proxy ((um, NMod) :: t) (m_proxies m) = Ok (proxies, t1)
+        /\ map_res decode_section t1 (m_sections m) = Ok (secs0, t2)
+        /\ cm_entry m' = Some u /\ uuid_of_bytes (m_entry m) = Ok u /\ tlookup t2 u = Some NCode).
+Proof. exact decode_module_entry. Qed.
+
+(* CFG edge endpoints: code block or proxy block *)
+Theorem C09_edge_endpoints : forall t e e', decode_edge t e = Ok e' ->
+  (exists k, uuid_of_bytes (e_src e) = Ok (ce_src e') /\ tlookup t (ce_src e') = Some k /\ is_cfg_kind k = true)
+  /\ (exists k, uuid_of_bytes (e_dst e) = Ok (ce_dst e') /\ tlookup t (ce_dst e') = Some k /\ is_cfg_kind k = true).
+Proof. exact decode_edge_endpoints. Qed.
+
+(* symbolic expression operands: symbols *)
+Theorem C09_expression_symbols : forall t kv kv', decode_expr t kv = Ok kv' ->
+  fst kv' = fst kv /\
+  match x_val (snd kv) with
+  | PAddrConst off s => exists u, cx_val (snd kv') = CAddrConst off u /\ uuid_of_bytes s = Ok u /\ tlookup t u = Some NSym
+  | PAddrAddr sc off s1 s2 => exists u1 u2, cx_val (snd kv') = CAddrAddr sc off u1 u2
+                                /\ uuid_of_bytes s1 = Ok u1 /\ tlookup t u1 = Some NSym
+                                /\ uuid_of_bytes s2 = Ok u2 /\ tlookup t u2 = Some NSym
+  | PNoExpr => False
+  end.
+Proof. exact decode_expr_symbols. Qed.
+
+(* a node is entered in the table once: a second node with the same UUID and another class is a DeserializationError *)
+Theorem C09_dup_other_kind : forall t u k k', tlookup t u = Some k' -> k' <> k -> fresh t u k = Err EDeser.
+Proof. exact dup_other_kind. Qed.
+
+(* non-vacuity: the accepted example message has a referent, an entry point, two distinct edges and an expression
+   operand; the same message with the symbol's referent pointing at the section (wrong kind) or at nothing is rejected *)
+Example C09_example :
+  ex_retarget (ex_uuid 5) = ex_msg
+  /\ (exists c, from_proto ex_msg = Ok c
+        /\ map cy_payload (flat_map cm_symbols (cr_modules c)) = [CPRef (5 * 256 + 255); CPVal 0]
+        /\ map cm_entry (cr_modules c) = [Some (5 * 256 + 255)]
+        /\ flat_map code_uuids (cr_modules c) = [5 * 256 + 255])
+  /\ from_proto (ex_retarget (ex_uuid 3)) = Err EDeser           (* the section: wrong kind *)
+  /\ from_proto (ex_retarget (ex_uuid 77)) = Err EDeser          (* no such node *)
+  /\ from_proto (ex_retarget [5; 255]) = Err EValue.             (* not a UUID *)
+Proof.
+  split; [vm_compute; reflexivity|]. split; [|vm_compute; repeat split; reflexivity].
+  eexists. split; [vm_compute; reflexivity|]. vm_compute. repeat split; reflexivity.
+Qed.
+
+Print Assumptions C09_loaded_unique.
+Print Assumptions C09_refs_closed_typed.
+Print Assumptions C09_reference_one_node.
+Print Assumptions C09_resolve_accepts.
+Print Assumptions C09_dangling_rejected.
+Print Assumptions C09_illtyped_rejected.
+Print Assumptions C09_badlen_rejected.
+Print Assumptions C09_symbol_referent.
+Print Assumptions C09_entry_point.
+Print Assumptions C09_edge_endpoints.
+Print Assumptions C09_expression_symbols.
+Print Assumptions C09_dup_other_kind.
